@@ -214,7 +214,8 @@ func runCheck(prop, repo, verif, tier, work string, tmo int, verbose bool, updat
 	}
 	// contract-derived obligations of the baseline must still be generated
 	for _, bn := range baseline[prop] {
-		if seen[bn] {
+		if seen[bn] || updateBaseline {
+			// --update-baseline (a maintainer action after an intended contract change) re-records the names
 			continue
 		}
 		kind := ""
